@@ -307,6 +307,68 @@ pub fn check(thorough: bool, _seed: u64) -> Check {
         bounds: json!({"sequence": "a + / - with a NaN breakpoint at every position of a 4-piece operand (caught), then every well-formed merge of end lists of length 1..3 over {1,2,3}, checked at every x of A(ends)"}),
     };
     phases.push(after_reject);
+    // huge operands (integer widths of indices, recursion depth, parallel splits): checked at a few thousand probe points with a
+    // binary-search reference (the ends are strictly increasing here, so first-end-greater-than-x is a partition point)
+    let huge = Phase {
+        name: "huge-operands",
+        units: if thorough { 8 } else { 6 },
+        split: 0,
+        body: Box::new(move |unit, cx| {
+            let mk = |n: usize, off: f64, step: f64| -> Vec<f64> { (0..n).map(|i| off + i as f64 * step).collect() };
+            let (fe, ge): (Vec<f64>, Vec<f64>) = match unit {
+                0 => (mk(70000, 0.5, 1.0), vec![1000.25, 30000.25, 65535.75, 69000.25]),
+                1 => (vec![1000.25, 30000.25, 65535.75, 69000.25], mk(66000, 0.5, 1.0)),
+                2 => (mk(70000, 0.5, 1.0), mk(66000, 0.25, 1.0)),
+                3 => (mk(4000, 0.5, 1.0), mk(4000, 0.75, 1.0)),
+                4 => (mk(30000, 0.5, 1.0), mk(30000, 0.75, 1.0)),
+                5 => (mk(65537, 0.5, 1.0), vec![70000.0]),
+                6 => (mk(131075, 0.5, 0.5), mk(131075, 0.25, 0.5)),
+                _ => (mk(262147, 0.5, 0.25), vec![1.0, 65536.0]),
+            };
+            let sub = cx.flag();
+            let f = sym_pw(&fe);
+            let g = sym_pw(&ge);
+            let res = guard(|| if sub { &f - &g } else { &f + &g });
+            cx.evals(1);
+            cx.nontrivial();
+            let op = if sub { "-" } else { "+" };
+            let detail = |obs: serde_json::Value| json!({"f": format!("{} pieces, ends {}..{}", fe.len(), fe[0], fe[fe.len() - 1]), "g": format!("{} pieces, ends {}..{}", ge.len(), ge[0], ge[ge.len() - 1]), "op": op, "observation": obs});
+            if cx.sampling() {
+                cx.sample(detail(json!("sample")));
+            }
+            let res = match res {
+                Ok(r) => r,
+                Err(pn) => return Err(Fail::new(format!("piecewise {op} panicked on huge well-formed operands: {pn}"), detail(json!(pn)))),
+            };
+            let re: Vec<f64> = res.segments.iter().map(|s| s.end).collect();
+            if re.is_empty() || re.len() > fe.len() + ge.len() - 1 || re.windows(2).any(|w| !(w[0] <= w[1])) {
+                return Err(Fail::new(format!("piecewise {op}: result is not well-formed (empty, too long or breakpoints not non-decreasing)"), detail(json!({"result_pieces": re.len()}))));
+            }
+            let idx = |e: &[f64], x: f64| -> usize { e.partition_point(|v| *v <= x).min(e.len() - 1) };
+            // probe points: around the integer-width boundaries of the piece index, the first / last ends, and a stride through everything
+            let mut probes: Vec<f64> = vec![f64::NEG_INFINITY, f64::INFINITY, fe[0], ge[0], fe[fe.len() - 1], ge[ge.len() - 1]];
+            for e in [&fe, &ge] {
+                for k in [255usize, 256, 257, 4095, 4096, 32767, 32768, 32769, 65534, 65535, 65536, 65537, 65538, 131071, 131072, 131073] {
+                    if k < e.len() {
+                        probes.extend([exact::pred(e[k]), e[k], exact::succ(e[k]), e[k] + 0.1]);
+                    }
+                }
+                probes.extend(e.iter().step_by(e.len() / 700 + 1).flat_map(|&v| [v, v + 0.1]));
+            }
+            for x in probes {
+                let got = res.segments[idx(&re, x)].poly;
+                let gi = idx(&ge, x) as i32 + 1;
+                let want = Sym { l: idx(&fe, x) as i32 + 1, r: if sub { -gi } else { gi } };
+                if got != want {
+                    return Err(Fail::new(format!("piecewise {op} combines the wrong pieces at x (huge operands)"), detail(json!({"x": fj(x), "expected_pieces(f,g)": [want.l, want.r], "got_pieces(f,g)": [got.l, got.r]}))));
+                }
+            }
+            Ok(())
+        }),
+        classes: vec![],
+        bounds: json!({"operands": "70000 x 4, 4 x 66000, 70000 x 66000 (shifted), 4000 x 4000 and 30000 x 30000 interleaved, 65537 x 1 (thorough also 131075 x 131075, 262147 x 2); both operators", "probes": "around piece indices 255..257, 4095, 4096, 32767..32769, 65534..65538, 131071..131073 of either operand, the extremes, and ~700 evenly spread breakpoints of each operand"}),
+    };
+    phases.push(huge);
     Check {
         id: "C13",
         rule: "choice tree: (left shape, operator) unit x right shape x query; pieces are symbolic provenance values so the result records which piece of f and of g were combined; each leaf is one (f, g, op, x) run on the real operators; non-trivial = operands with different end lists".into(),
